@@ -74,7 +74,29 @@ def op_strategy(draw):
 @st.composite
 def case_strategy(draw):
     ops = [draw(op_strategy()) for _ in range(draw(st.integers(6, 40)))]
-    return {'unhash': draw(st.lists(st.booleans(), min_size=4, max_size=4)),
+    unhash = draw(st.lists(st.booleans(), min_size=4, max_size=4))
+    if draw(st.integers(0, 3)) == 0:
+        # recipe: one hashable component under two or three names of one
+        # provided interface, then the first unhashable utility for that
+        # interface (the bookkeeping switches strategy, carrying the
+        # counts over), then one of the names goes or is replaced
+        # (seed C16d)
+        unhash[0], unhash[1] = False, True
+        prov = draw(st.integers(0, 3))
+        names = draw(st.permutations(NAMES))
+        k = draw(st.integers(2, 3))
+        pre = [['regU', [0, draw(st.integers(0, 1))], prov, nm, '', True,
+                False] for nm in names[:k]]
+        pre.append(['regU', [1, 0], draw(st.sampled_from([prov, prov, 0])),
+                    draw(st.sampled_from(NAMES)), '', True, False])
+        if draw(st.booleans()):
+            pre.append(['unregU', None, prov, names[0], None])
+        else:
+            pre.append(['regU', [2, 0], prov, names[0], '', True, False])
+        pre.append(['query', [], prov, names[1]])
+        cut = draw(st.integers(0, min(6, len(ops))))
+        ops = ops[:cut] + pre + ops[cut:]
+    return {'unhash': unhash,
             # components that are false in a boolean context (empty
             # containers, objects with __len__ == 0) are components too
             'falsy': draw(st.lists(st.sampled_from([False, False, True]),
